@@ -127,6 +127,7 @@ class TermEval:
         self.consts = consts or {}
         self.hash_ctors = hash_ctors
         self.forks = 0
+        self.observe = None         # callback(call node, env) before a call is evaluated
 
     # ---- expressions --------------------------------------------------------------
     def text(self, e: ast.AST, env: dict) -> str:
@@ -145,6 +146,8 @@ class TermEval:
         return norm(T().visit(clone(e)))
 
     def eval(self, e: ast.AST, env: dict):
+        if self.observe is not None and isinstance(e, ast.Call):
+            self.observe(e, env)
         m = getattr(self, '_e_' + type(e).__name__, None)
         if m is not None:
             v = m(e, env)
@@ -157,7 +160,7 @@ class TermEval:
             recv = None
             if isinstance(e.func, ast.Attribute):
                 recv = self.eval(e.func.value, env)
-            symbolic = (SymStr, Term, Digest, Xor, list, tuple, Hash)
+            symbolic = (SymStr, Term, Digest, Xor, list, tuple, Hash, dict)
             if any(isinstance(a, symbolic) for a in args + [v for _, v in kws]) or isinstance(recv, symbolic):
                 if isinstance(recv, symbolic) or isinstance(recv, (str, bytes)):
                     return Term('.' + e.func.attr, (_freeze(recv),) + tuple(_freeze(a) for a in args),
@@ -186,6 +189,17 @@ class TermEval:
 
     def _e_List(self, e, env):
         return [self.eval(x, env) for x in e.elts]
+
+    def _e_Dict(self, e, env):
+        out = {}
+        for k, v in zip(e.keys, e.values):
+            if k is None:
+                return NotImplemented
+            kv = self.eval(k, env)
+            if not isinstance(kv, (str, int, bytes)):
+                return NotImplemented
+            out[kv] = self.eval(v, env)
+        return out
 
     def _e_Tuple(self, e, env):
         return tuple(self.eval(x, env) for x in e.elts)
@@ -443,6 +457,14 @@ class TermEval:
         if isinstance(f, ast.Attribute):
             recv = self.eval(f.value, env)
             a = f.attr
+            if isinstance(recv, dict) and a == 'update':
+                srcs = [x for x in args] + ([kw] if kw else [])
+                if all(isinstance(x, dict) for x in srcs) and not any(k.arg is None for k in e.keywords):
+                    for x in srcs:
+                        recv.update(x)
+                else:
+                    recv['?unknown'] = True
+                return None
             if isinstance(recv, dict) and a == 'get' and 1 <= len(args) <= 2:
                 k = args[0]
                 if isinstance(k, (int, str, bytes, bool)):
@@ -539,6 +561,9 @@ class TermEval:
             if isinstance(base, list) and isinstance(idx, int) and -len(base) <= idx < len(base):
                 base[idx] = v
                 return True
+            if isinstance(base, dict) and isinstance(idx, (str, int, bytes)) and not isinstance(idx, bool):
+                base[idx] = v
+                return True
             if isinstance(t.value, ast.Name):
                 env[t.value.id] = Opaque(f'?{t.value.id}')
             return True
@@ -553,7 +578,7 @@ class TermEval:
                     env[n.value.id] = Opaque(f'?{n.value.id}')
                 elif isinstance(n, ast.Call) and isinstance(n.func, ast.Attribute) \
                         and isinstance(n.func.value, ast.Name) and n.func.value.id in env \
-                        and isinstance(env[n.func.value.id], (list, Hash)):
+                        and isinstance(env[n.func.value.id], (list, Hash, dict)):
                     env[n.func.value.id] = Opaque(f'?{n.func.value.id}')
 
     def run(self, fn: ast.FunctionDef, env: dict) -> list[Path]:
@@ -669,6 +694,8 @@ def _parses(t: str) -> bool:
 def _freeze(v):
     if isinstance(v, list):
         return tuple(_freeze(x) for x in v)
+    if isinstance(v, dict):
+        return tuple(sorted((str(k), _freeze(x)) for k, x in v.items()))
     if isinstance(v, Hash):
         return ('hash', tuple(_freeze(x) for x in v.inputs))
     return v
